@@ -203,6 +203,10 @@ def colored_render_to_stream(
 ):
     if style is None:
         style = default_style
+    elif style == 'dark':
+        style = default_dark_style
+    elif style == 'light':
+        style = default_light_style
 
     evald = list(sdocs)
 
